@@ -632,7 +632,7 @@ func main() {
 	}
 	hx.Main(hx.Family{
 		Name: "c23",
-		Rule: "1-4 requests per case on one service instance (empty world 1/6, OSM town otherwise; 1/3 with a non-empty overlay layer); each request is an expression tree over the whole registered function table (read by reflection): a call of a uniformly chosen function with arguments generated per Go parameter type (literals with edge values: negative/huge ints, NaN/Inf floats, invalid/missing/mistyped feature IDs, empty and degenerate geometries, queries of every constructor, literal collections incl. mixed/duplicate/unhashable entries; calls of any function whose result feeds the type; lambdas, partial applications, function symbols and queries for function types, 1/12 with a wrong arity; 1/30 an argument of a wrong sort; dropped/extra/swapped arguments), collection pipelines, lambda calls; 1/12 requests damaged at the wire level (a message field cleared, no request, bad root, bad version). Every request goes through proto.Marshal/Unmarshal and the real grpc service.Evaluate; half also through api.Evaluate with functions.NewContext. non-trivial = a request uses >= 2 library functions or a lambda; distinct = by hash of the case text",
+		Rule: "1-4 requests per case on one service instance (empty world 1/6, OSM town otherwise; 1/3 with a non-empty overlay layer); each request is an expression tree over the whole registered function table (read by reflection): a call of a uniformly chosen function with arguments generated per Go parameter type (literals with edge values: negative/huge ints, NaN/Inf floats, invalid/missing/mistyped feature IDs, empty and degenerate geometries, queries of every constructor, literal collections incl. mixed/duplicate/unhashable entries; calls of any function whose result feeds the type; lambdas, partial applications, function symbols and queries for function types, 1/12 with a wrong arity; 1/30 an argument of a wrong sort; dropped/extra/swapped arguments), collection pipelines, lambda calls (1/6 with more or fewer arguments than parameters), 1/12 programs inside the fragment the Lean model evaluates (add-ints, pairs, nested lambdas, partial applications, ill-typed arguments); 1/12 requests damaged at the wire level (a message field cleared, no request, bad root, bad version). Every request goes through proto.Marshal/Unmarshal and the real grpc service.Evaluate; half also through api.Evaluate with functions.NewContext. non-trivial = a request uses >= 2 library functions or a lambda; distinct = by hash of the case text",
 		Quick:    quickCases,
 		Thorough: thoroughCases,
 		Corpus: func(c *hx.Ctx) {
